@@ -452,6 +452,15 @@ func (s *static) edit(w *World, last bool) {
 	path := s.path[p]
 	bad := t.Draw(4) == 0
 	text, _ := s.genLeaseFile(t, p == 1, bad)
+	if s.noisy && t.Draw(2) == 0 {
+		// the update lands while the kernel queue is already overflowing with other files' events: its own events
+		// are dropped, only the overflow record tells the plugin that something was missed
+		w.Probe("file.update_during_overflow")
+		for j, k := 0, w.Sim.InotifyQueueMax+t.Range(1, 12); j < k; j++ {
+			s.noiseSeq++
+			w.Sim.FSCreateEvent(filepath.Join(w.Dir, fmt.Sprintf("other-%d.tmp", s.noiseSeq)), []byte("x"))
+		}
+	}
 	// faults land inside operations: requests are in flight while the update (and the reload it triggers) happens
 	for i, k := 0, int(t.Draw(4)); i < k; i++ {
 		w.Sim.After(int64(t.Draw(40))*1e6, func() { s.request(w) })
